@@ -303,3 +303,48 @@ Proof. exact auth_verify_pown_bidirectional_decode. Qed.
 (* Every positive-response decoder of the library now has its end-to-end statement (session timing: C10_scaled; memory echo: C14_echo;
    download / upload block length: C02_block_length; DIDs: C02_did_values; ReadDTCInformation: above).  Report types 0x1A and 0x56 have
    no decoder in this version of the library (the response is returned undecoded). *)
+
+(* ---- the code is the model (regenerated each run): what each of these client methods does with a positive response carrying the data
+   bytes d - the service's interpret_response and the method's echo comparisons, executed on symbolic arguments and on d of every
+   length class (tools/symtrans.py, Gen/Fn_SimpleInt.v) - is the model's interpret function, for every call whose request was built ---- *)
+From UDS Require Import Gen.Fn_SimpleReq Gen.Fn_SimpleInt Model.Svc_Simple Proofs.Tie_simple_common Proofs.Tie_simple_int.
+
+Theorem C02_code_ecu_reset_interpret : forall t d r p, fn_ecu_reset_request t = inr p -> d <> [] -> p_data r = d ->
+  fn_ecu_reset_interpret t d = er_interpret t r.
+Proof. exact tie_ecu_reset_interpret. Qed.
+Print Assumptions C02_code_ecu_reset_interpret.
+Theorem C02_code_routine_control_interpret : forall rid ct data d r p, fn_routine_control_request rid ct data = inr p -> d <> [] -> p_data r = d ->
+  fn_routine_control_interpret rid ct data d = rc_interpret rid ct r.
+Proof. exact tie_routine_control_interpret. Qed.
+Print Assumptions C02_code_routine_control_interpret.
+Theorem C02_code_change_session_interpret : forall cfg sn d r p, std cfg = 2020 -> fn_change_session_request sn = inr p -> d <> [] -> p_data r = d ->
+  fn_change_session_interpret sn d = dsc_interpret cfg sn r.
+Proof. exact tie_change_session_interpret. Qed.
+Print Assumptions C02_code_change_session_interpret.
+Theorem C02_code_change_session_2006_interpret : forall cfg sn d r p, std cfg = 2006 -> fn_change_session_2006_request sn = inr p -> d <> [] -> p_data r = d ->
+  fn_change_session_2006_interpret sn d = dsc_interpret cfg sn r.
+Proof. exact tie_change_session_2006_interpret. Qed.
+Print Assumptions C02_code_change_session_2006_interpret.
+Theorem C02_code_request_seed_interpret : forall level data d r p, fn_request_seed_request level data = inr p -> d <> [] -> p_data r = d ->
+  fn_request_seed_interpret level data d = sa_interpret false level r.
+Proof. exact tie_request_seed_interpret. Qed.
+Print Assumptions C02_code_request_seed_interpret.
+Theorem C02_code_send_key_interpret : forall level key d r p, fn_send_key_request level key = inr p -> d <> [] -> p_data r = d ->
+  fn_send_key_interpret level key d = sa_interpret true level r.
+Proof. exact tie_send_key_interpret. Qed.
+Print Assumptions C02_code_send_key_interpret.
+Theorem C02_code_access_timing_parameter_interpret : forall a rc d r p, fn_access_timing_parameter_request a rc = inr p -> d <> [] -> p_data r = d ->
+  fn_access_timing_parameter_interpret a rc d = atp_interpret a r.
+Proof. exact tie_access_timing_parameter_interpret. Qed.
+Print Assumptions C02_code_access_timing_parameter_interpret.
+Theorem C02_code_transfer_data_interpret : forall sq data d r p, fn_transfer_data_request sq data = inr p -> d <> [] -> p_data r = d ->
+  fn_transfer_data_interpret sq data d = td_interpret sq r.
+Proof. exact tie_transfer_data_interpret. Qed.
+Print Assumptions C02_code_transfer_data_interpret.
+Theorem C02_code_control_dtc_setting_interpret : forall t data d r p, fn_control_dtc_setting_request t data = inr p -> d <> [] -> p_data r = d ->
+  fn_control_dtc_setting_interpret t data d = echo1_interpret t r.
+Proof. exact tie_control_dtc_setting_interpret. Qed.
+Print Assumptions C02_code_control_dtc_setting_interpret.
+Theorem C02_code_tester_present_interpret : forall d r, d <> [] -> p_data r = d -> fn_tester_present_interpret d = tp_interpret r.
+Proof. exact tie_tester_present_interpret. Qed.
+Print Assumptions C02_code_tester_present_interpret.
